@@ -283,7 +283,10 @@ def run_drive(exe, api, lines, shards=NCPU, env=None, timeout=3600):
         while pos < len(part):
             inp = "\n".join(l for _, l in part[pos:]) + "\n"
             r = subprocess.run([exe, api], input=inp, capture_output=True, text=True, env=env, timeout=timeout)
-            got = [l for l in r.stdout.split("\n") if l.startswith("R ")]
+            outl = r.stdout.split("\n")
+            if outl and not r.stdout.endswith("\n"):
+                outl = outl[:-1]          # a partial last line means the process died while printing it
+            got = [l for l in outl if l.startswith("R ")]
             for k, l in enumerate(got):
                 if pos + k < len(part):
                     out[part[pos + k][0]] = l[2:]
